@@ -18,6 +18,18 @@ def features(case, run, val):
 
 
 
+def case_gen(rng, k):
+    case = (gen.gen_nested_case(rng) if k % 8 == 7 else gen.gen_loop_case(rng) if k % 4 == 2 else gen.gen_queue_case(rng) if k % 4 == 1
+            else gen.gen_parallel_case(rng, clean=False) if k % 8 == 3 else gen.gen_case(rng, groups=True))
+    if k % 4 in (0, 1):
+        # outputs whose value is None (the key is present): such an output demands a step of a triggered destination like any other
+        for b in case['beh']:
+            if rng.random() < 0.6:
+                b['none_attrs'] = ['po', 'eo', 'e2']
+                b['none_outputs'] = [f'{tt},{kk}' for tt in range(case['until'] + 1) for kk in range(3) if rng.random() < 0.5]
+    return case
+
+
 def run(out, info, tier, seed):
     out.trusted_base = common.COMMON_TRUSTED + [
         'modelled by hand: sim_process/next_step_settled/wait_for_dependencies/step/get_outputs/notify_dependencies/advance_progress/'
@@ -26,7 +38,7 @@ def run(out, info, tier, seed):
         'theorem premise static_ok (shape facts; the ancestors table dominates every trigger path) is checked per scenario by comparing the model-built tables with the implementation, not yet discharged by a closure theorem']
     out.assumptions = ['simulators are an oracle: any reply sequence (event list); delays that are compared have equal shape (convex group scenarios)']
     sched_check.sched_property(out, info, tier, seed, 'C02', KINDS, monitors.P_C02, gen_opts={'groups': True},
-                               case_gen=lambda rng, k: gen.gen_nested_case(rng) if k % 8 == 7 else gen.gen_loop_case(rng) if k % 4 == 2 else gen.gen_queue_case(rng) if k % 4 == 1 else gen.gen_parallel_case(rng, clean=False) if k % 8 == 3 else gen.gen_case(rng, groups=True),
+                               case_gen=case_gen,
                                ncases=(110, 1500), variants=[(True, True), (False, True), (True, False)], nontrivial=nontrivial, features=features,
                                known_match=None, hyp=None,
                                extra_obligations=[('Sched.Inv (invariant preserved by every event)', 'Sched/Inv'),
